@@ -370,9 +370,35 @@ def handle_trace_viols(ctx, found, max_report=5):
         if os.path.exists(scen_file) and idx is not None:
             with open(scen_file) as f:
                 scen = json.load(f)[idx]
+        got = v.get("got")
+        if isinstance(got, dict) and got.get("kind") == "blocked" and scen is not None:
+            # a call that did not return within the watchdog: re-run the scenario alone with 6x the
+            # timeouts; only a reproduced "blocked" counts (CPU starvation is not a violation)
+            if getattr(ctx, "blocked_confirmed", False):
+                pass            # one reproduced hang is enough; the others are reported without re-running
+            elif confirm_blocked(ctx, scen):
+                ctx.blocked_confirmed = True
+            else:
+                ctx.notes.append("a 'blocked' observation did not reproduce in isolation (ignored): %s" % scen.get("name"))
+                continue
         what = "event %s at trace line %d: expected %s, got %s" % (v["ev"], v["l"], short(v.get("exp")), short(v.get("got")))
         record_violation(ctx, props, what, dict(kind="scenario", property=sorted(props), scenario=scen, event=ev,
                                               expected=v.get("exp"), got=v.get("got")))
+
+
+def confirm_blocked(ctx, scen):
+    d = ctx.sub("confirm-%d" % (len(os.listdir(ctx.work))))
+    src = os.path.join(d, "in.json")
+    with open(src, "w") as f:
+        json.dump([scen], f)
+    try:
+        run_icex(ctx, ["runfile", src, d, "c", 1], env_extra={"VERIF_WATCHDOG_SCALE": "6"})
+    except Crashed:
+        return True
+    for t in glob.glob(os.path.join(d, "*.ndjson")):
+        if '"kind":"blocked"' in open(t).read():
+            return True
+    return False
 
 
 def run_family(ctx, family, n, perfile=20, seed_off=0, race=False, env_extra=None):
